@@ -78,10 +78,17 @@ def tier_plan(tier):
 
 # ---- design level -------------------------------------------------------------------------------------
 def run_models(rep, models, out):
-    for m in models:
+    def one(m):
         res = tlc.run_tlc('ConvCache', model_cfg(**m['cfg']), workers=m['workers'], timeout=m.get('timeout', 1500),
                           name='c10_' + m['name'])
         out.append((m, res))
+    ths = [threading.Thread(target=one, args=(m,)) for m in models]
+    for th in ths:
+        th.start()
+    for th in ths:
+        th.join()
+    if len(out) != len(models):
+        raise common.MachineryError('a ConvCache model-checking run crashed')
 
 
 def judge_models(rep, results):
@@ -173,40 +180,42 @@ OBS_FIELDS = (('amo', 'AtMostOnce', 'the source transformation of one (code obje
 def judge_traces(rep, traces, by_id, scratch, workers, name):
     """Runs TLC over `traces` (plus corrupted copies), reports rejected traces / violated invariants."""
     controls = corrupt(traces[0]) if traces else []
-    ends, _, res = validate_traces(traces + controls, scratch, workers, name)
+    ends, _, res = validate_traces(traces + controls, scratch, workers, name, modes=('strict',))
     rep.add_tlc(res)
     for c in controls:
         if (c['id'], 'strict') in ends:
             raise common.MachineryError('TraceConvCache accepted a corrupted trace (control %d): trace validation is vacuous' % c['id'])
     rep.add('corrupted_control_traces_rejected', len(controls))
     rejected = []
+
+    def report_invariants(rec, t):
+        for fld, inv, what in OBS_FIELDS:
+            if rec[fld]:
+                rep.violation('c10:trace:%s' % inv, what + ' (recorded trace, decided by TLC on the observed history)',
+                              dict(job=by_id[t['id']]['job'], offending=rec[fld][:5], mode=rec['mode'],
+                                   trace_file=_save_trace(rep, t)))
+        if not rec['lockok']:
+            rep.violation('c10:trace:LockDiscipline', 'lock discipline violated at the end of an accepted trace',
+                          dict(job=by_id[t['id']]['job'], trace_file=_save_trace(rep, t)))
+
     for t in traces:
-        tid = t['id']
-        obs = ends.get((tid, 'obs'))
-        if obs is None:
-            raise common.MachineryError('trace %s is malformed: the observational replay did not reach its end' % tid)
-        strict = ends.get((tid, 'strict'))
-        for rec in (obs, strict):
-            if rec is None:
-                continue
-            for fld, inv, what in OBS_FIELDS:
-                if rec[fld]:
-                    rep.violation('c10:trace:%s' % inv, what + ' (recorded trace, decided by TLC on the observed history)',
-                                  dict(job=by_id[tid]['job'], offending=rec[fld][:5], mode=rec['mode'],
-                                       trace_file=_save_trace(rep, t)))
-            if not rec['lockok']:
-                rep.violation('c10:trace:LockDiscipline', 'lock discipline violated at the end of an accepted trace',
-                              dict(job=by_id[tid]['job'], trace_file=_save_trace(rep, t)))
+        strict = ends.get((t['id'], 'strict'))
         if strict is None:
             rejected.append(t)
         else:
+            report_invariants(strict, t)
             rep.validated()
     if rejected:
-        # second pass: where does each rejected trace leave the specification?
-        ends2, ats, res2 = validate_traces(rejected, scratch, workers, name + '_diag', modes=('strict',), diag=True)
+        # second pass: where does each rejected trace leave the specification, and which property invariant does
+        # the observed history (requests, successful transforms, results) violate?
+        ends2, ats, res2 = validate_traces(rejected, scratch, workers, name + '_diag', modes=('strict', 'obs'), diag=True)
         rep.add_tlc(res2)
         for t in rejected:
-            mine = [a for a in ats if a['id'] == t['id']]
+            obs = ends2.get((t['id'], 'obs'))
+            if obs is None:
+                raise common.MachineryError('trace %s is malformed: the observational replay did not reach its end' % t['id'])
+            report_invariants(obs, t)
+            mine = [a for a in ats if a['id'] == t['id'] and a['mode'] == 'strict']
             far = max(a['l'] for a in mine)
             stuck = sorted({(a['ev'], a['pc']) for a in mine if a['l'] == far})
             ev = stuck[0][0]
